@@ -2,16 +2,31 @@ import Driver.Proto
 import Model.RBTree
 open Proto RB
 
+/-- two trees per history (`swap` exchanges them; all other operations act on `tree`), sharing the compare function -/
 structure DState where
   div10 : Bool
   tree : Tree Int Int
+  other : Tree Int Int := Tree.empty
 
 /-- visitor of the harness: record the entry, continue while fewer than `j` entries have been visited -/
 def visitor (j : Nat) (s : Nat × List (Int × Int)) (k v : Int) : (Nat × List (Int × Int)) × Bool :=
   ((s.1 + 1, (k, v) :: s.2), decide (s.1 + 1 < j))
 
+/-- a visitor that panics at its `j`-th visit: the panic unwinds the whole traversal (the library has no recover),
+    which for the tree is the same as a visitor returning `false` there — the entries up to and including the `j`-th
+    have been seen and nothing is modified -/
+def panicVisitor (j : Nat) (s : Nat × List (Int × Int)) (k v : Int) : (Nat × List (Int × Int)) × Bool :=
+  ((s.1 + 1, (k, v) :: s.2), decide (s.1 + 1 ≠ j))
+
 def showList (l : List (Int × Int)) : String :=
   if l.isEmpty then "-" else " ".intercalate (l.map fun e => toString e.1 ++ ":" ++ toString e.2)
+
+/-- visitor for the `p…` traversals: `reent` = stops after `j` visits (and only reads the tree from inside the
+    callback, which the model need not represent), any other kind = panics at the `j`-th visit -/
+def pVisitor (kind : String) (j : Nat) := if kind == "reent" then visitor j else panicVisitor j
+
+def pOut (kind : String) (j : Nat) (s : Nat × List (Int × Int)) : String :=
+  showList s.2.reverse ++ (if kind != "reent" && j != 0 && s.1 == j then " panicked" else " done")
 
 def showOpt : Option Int → String
   | none => "none"
@@ -22,14 +37,27 @@ def dumpT : T Int Int → String
   | .node c l k v r =>
     "(" ++ (if c = .red then "r" else "b") ++ toString k ++ ":" ++ toString v ++ " " ++ dumpT l ++ " " ++ dumpT r ++ ")"
 
+/-- The trailing ` c=N` is the model's own number of compare calls; the check strips it (exact counts are not part of
+    the property) and keeps it as an informational statistic.  `cmp-ok` is the constant verdict of the comparison
+    bound (the model meets it by `C06.compares_run`).
+    `pins`/`prem`/`pget`: the compare function panics at its first call — an operation that calls `compare` at all
+    (model count ≠ 0, i.e. the tree is not empty) is abandoned before it has modified anything. -/
 def step (st : DState) (line : String) : DState × String :=
   let cmp := cmpOf st.div10
   let t := st.tree
   match words line with
   | ["reset", m] => ({ div10 := m == "div10", tree := Tree.empty }, "ok")
+  | ["reset", m, _] => ({ div10 := m == "div10", tree := Tree.empty }, "ok")
+  | ["swap"] => ({ st with tree := st.other, other := st.tree }, "ok")
   | ["ins", k, v] =>
     match parseInt? k, parseInt? v with
     | some k, some v => let (t', c) := t.insert cmp k v; ({ st with tree := t' }, "done cmp-ok c=" ++ toString c)
+    | _, _ => (st, "bad-op")
+  | ["pins", k, v] =>
+    match parseInt? k, parseInt? v with
+    | some k, some v =>
+      let (t', c) := t.insert cmp k v
+      if c == 0 then ({ st with tree := t' }, "done cmp-ok c=0") else (st, "cmp-panic")
     | _, _ => (st, "bad-op")
   | ["rem", k] =>
     match parseInt? k with
@@ -37,9 +65,21 @@ def step (st : DState) (line : String) : DState × String :=
       let (t', c) := t.remove cmp k
       ({ st with tree := t' }, (if t'.count != t.count then "removed" else "absent") ++ " cmp-ok c=" ++ toString c)
     | _ => (st, "bad-op")
+  | ["prem", k] =>
+    match parseInt? k with
+    | some k =>
+      let (t', c) := t.remove cmp k
+      if c == 0 then
+        ({ st with tree := t' }, (if t'.count != t.count then "removed" else "absent") ++ " cmp-ok c=0")
+      else (st, "cmp-panic")
+    | _ => (st, "bad-op")
   | ["get", k] =>
     match parseInt? k with
     | some k => let (r, c) := t.get cmp k; (st, showOpt r ++ " cmp-ok c=" ++ toString c)
+    | _ => (st, "bad-op")
+  | ["pget", k] =>
+    match parseInt? k with
+    | some k => let (r, c) := t.get cmp k; (st, if c == 0 then showOpt r ++ " cmp-ok c=0" else "cmp-panic")
     | _ => (st, "bad-op")
   | ["first"] => (st, showOpt t.first)
   | ["last"] => (st, showOpt t.last)
@@ -64,6 +104,23 @@ def step (st : DState) (line : String) : DState × String :=
       let (s, c) := t.reverseTraverseStartingAt cmp k (visitor j) (0, [])
       (st, showList s.2.reverse ++ " cmp-ok c=" ++ toString c)
     | _, _ => (st, "bad-op")
+  | ["ptrav", j, kind] =>
+    match j.toNat? with
+    | some j => (st, pOut kind j (t.traverse (pVisitor kind j) (0, [])))
+    | _ => (st, "bad-op")
+  | ["prtrav", j, kind] =>
+    match j.toNat? with
+    | some j => (st, pOut kind j (t.reverseTraverse (pVisitor kind j) (0, [])))
+    | _ => (st, "bad-op")
+  | ["ptravfrom", k, j, kind] =>
+    match parseInt? k, j.toNat? with
+    | some k, some j => (st, pOut kind j (t.traverseStartingAt cmp k (pVisitor kind j) (0, [])).1)
+    | _, _ => (st, "bad-op")
+  | ["prtravfrom", k, j, kind] =>
+    match parseInt? k, j.toNat? with
+    | some k, some j => (st, pOut kind j (t.reverseTraverseStartingAt cmp k (pVisitor kind j) (0, [])).1)
+    | _, _ => (st, "bad-op")
+  | ["dumpapi"] => (st, "lines=" ++ toString t.count ++ " keys-ok unchanged")
   | ["dump"] => (st, dumpT t.root ++ " parents=ok")
   | ["inv"] => (st, "ok")
   | _ => (st, "bad-op")
